@@ -56,6 +56,13 @@ def edit_world(r, W):
         nw = gen.gen_world(r)['workloads'][0]
         nw['name'] = 'wnew'
         nw['ns'] = r.choice(W2['workloads'])['ns'] if W2['workloads'] else 'ns1'
+        if W2['workloads'] and r.random() < 0.5:
+            # a twin: same name and kind as an existing workload, in another namespace
+            tw = r.choice(W2['workloads'])
+            others = sorted({w['ns'] for w in W2['workloads']} - {tw['ns']}) or ['nstwin']
+            nw['name'], nw['kind'], nw['ns'] = tw['name'], tw['kind'], r.choice(others)
+            if any(w['ns'] == nw['ns'] and w['name'] == nw['name'] for w in W2['workloads']):
+                nw['name'] = 'wnew'
         W2['workloads'].append(nw)
         return W2, 'workload %s/%s added' % (nw['ns'], nw['name'])
     if x < 0.9:
